@@ -33,9 +33,16 @@ PairOK(e) ==
        /\ e.both_solved => FLe(e.obj_diff, e.obj_bound)
   /\ e.bit_required => e.bits_equal
 
+\* Lifecycle.tla: the bound is ONE module-level variable - a set_infinity on one thread is what a solver built afterwards on
+\* any other thread reads (`Shared` events: a row at 1e15 must be dropped by a solver built on a fresh thread after
+\* set_infinity(1e10) on the recording thread, and the reinstated slack is that bound)
+SharedOK(e) == e.dropped /\ e.slack_is_bound
+
+EventOK(e) == IF e.ev = "Shared" THEN SharedOK(e) ELSE IF e.ev = "Pair" THEN PairOK(e) ELSE FALSE
+
 VARIABLES l, bad
 Next == /\ l <= Len(Rec) /\ l' = l + 1
-        /\ bad' = IF PairOK(Rec[l]) \/ Len(bad) >= 40 THEN bad ELSE Append(bad, l)
+        /\ bad' = IF EventOK(Rec[l]) \/ Len(bad) >= 40 THEN bad ELSE Append(bad, l)
 Spec == l = 1 /\ bad = <<>> /\ [][Next]_<<l, bad>>
 Export == (l = Len(Rec) + 1) => (TLCSet(1, Len(bad)) /\ (bad # <<>> => PrintT("BAD-EVENTS " \o ToString(bad))))
 TraceAccepted ==
